@@ -6,6 +6,7 @@
 import CrCube.Driver.Counts
 import CrCube.Model.ColumnIndex
 import CrCube.Spec.ColumnIndexSpec
+import CrCube.Spec.VariancePrims
 
 open Lean
 
@@ -58,7 +59,86 @@ def opC16Spec : Handler := fun j => do
   pure (jObj [("baseline", jVals (tab1 nr (baselineSpec d s))),
               ("column_index", jMat (rows.map (fun R => cols.map (fun C => columnIndexSpec d s R C))))])
 
+/-! ### C11 -/
+
+def dirOfString (s : String) : Dir := if s == "row" then .row else if s == "col" then .col else .table
+
+def getValD (j : Json) (k : String) : Val :=
+  match getVal j k with | .ok v => v | .error _ => .nan
+
+def valsEq (a b : Val) : Bool := a == b
+
+/-- do the primitives sent by the harness (computed in Python from the survey) agree with the
+    respondent-level primitives computed here?  (wave terms only where the model reads them) -/
+def primsAgree (a b : VarCell) : Bool :=
+  valsEq a.np b.np && valsEq a.nn b.nn && valsEq a.base b.base
+    && valsEq a.cA b.cA && valsEq a.bA b.bA && valsEq a.cS b.cS && valsEq a.bS b.bS
+
+/-- op `c11_cells`: {vars, survey, k, rowsCatDate, colsCatDate, cells: [{dir, R, C, np, nn, base, cA, bA, cS, bS}]}
+    ↦ per cell: model values on the primitives SENT, spec values from the survey -/
+def opC11Cells : Handler := fun j => do
+  let vars ← varsOfJson (← getField j "vars")
+  let s ← surveyOfJson (← getField j "survey")
+  let k ← getNat j "k"
+  let rcd := getBoolD j "rowsCatDate" false
+  let ccd := getBoolD j "colsCatDate" false
+  let d ← designOf vars k
+  let cells ← getList (← getField j "cells")
+  let outs ← cells.mapM (fun cj => do
+    let dir := dirOfString (← getStr cj "dir")
+    let R ← sideOfJson (← getField cj "R")
+    let C ← sideOfJson (← getField cj "C")
+    let mc : VarCell := { dir := dir, R := R, C := C, rowsCatDate := rcd, colsCatDate := ccd
+                          np := getValD cj "np", nn := getValD cj "nn", base := getValD cj "base"
+                          cA := getValD cj "cA", bA := getValD cj "bA", cS := getValD cj "cS", bS := getValD cj "bS" }
+    let sc := VarCell.ofSurvey d s dir R C rcd ccd
+    let sv := varianceSpec d s dir R C rcd ccd
+    let sb := baseSpec d s dir R C
+    let se := stdErrSpec sv sb
+    pure (jObj [
+      ("model", jObj [("variance", valToJson mc.variance), ("std_dev", outToJson mc.stdDev),
+                      ("std_err", outToJson mc.stdErr), ("moe", outToJson mc.moe),
+                      ("proportion", valToJson mc.proportion)]),
+      ("spec", jObj [("variance", valToJson sv), ("std_dev", outToJson (stdDevSpec sv)),
+                     ("std_err", outToJson se), ("moe", outToJson (moeSpec se)),
+                     ("base", valToJson (.fin sb))]),
+      ("model_on_spec_prims", valToJson sc.variance),
+      ("prims_agree", Json.bool (primsAgree mc sc))]))
+  pure (Json.arr outs.toArray)
+
+/-- op `c11_strand`: {vars: [v], survey, catDate, cells: [{S, np, nn, base, cA, bA, cS, bS}]} -/
+def opC11Strand : Handler := fun j => do
+  let vars ← varsOfJson (← getField j "vars")
+  let s ← surveyOfJson (← getField j "survey")
+  let cd := getBoolD j "catDate" false
+  let v ← match vars with | [v] => pure v | _ => throw "strand needs one variable"
+  let cells ← getList (← getField j "cells")
+  let outs ← cells.mapM (fun cj => do
+    let S ← sideOfJson (← getField cj "S")
+    let mc : StrandCell := { S := S, catDate := cd
+                             np := getValD cj "np", nn := getValD cj "nn", base := getValD cj "base"
+                             cA := getValD cj "cA", bA := getValD cj "bA", cS := getValD cj "cS", bS := getValD cj "bS" }
+    let sc := StrandCell.ofSurvey v s S cd
+    let sv := strandVarianceSpec v s S cd
+    let sb := wsum s (strandBase v S)
+    let se := stdErrSpec sv sb
+    pure (jObj [
+      ("model", jObj [("variance", valToJson mc.variance), ("std_dev", outToJson mc.stdDev),
+                      ("std_err", outToJson mc.stdErr), ("moe", outToJson mc.moe),
+                      ("proportion", valToJson mc.proportion)]),
+      ("spec", jObj [("variance", valToJson sv), ("std_dev", outToJson (stdDevSpec sv)),
+                     ("std_err", outToJson se), ("moe", outToJson (moeSpec se)),
+                     ("base", valToJson (.fin sb))]),
+      ("model_on_spec_prims", valToJson sc.variance),
+      ("prims_agree", Json.bool (valsEq mc.np sc.np && valsEq mc.nn sc.nn && valsEq mc.base sc.base
+          && valsEq mc.cA sc.cA && valsEq mc.bA sc.bA && valsEq mc.cS sc.cS && valsEq mc.bS sc.bS))]))
+  pure (Json.arr outs.toArray)
+
+/-- op `z975`: the model's constant -/
+def opZ975 : Handler := fun _ => pure (valToJson (.fin Z975))
+
 def ops : List (String × Handler) :=
-  [("c16_model", opC16Model), ("c16_spec", opC16Spec)]
+  [("c16_model", opC16Model), ("c16_spec", opC16Spec),
+   ("c11_cells", opC11Cells), ("c11_strand", opC11Strand), ("z975", opZ975)]
 
 end CrCube.Driver.Stats
